@@ -754,12 +754,34 @@ def tie_case(ctx: C.Ctx, case: Dict[str, Any], data: bytes, layout: Dict[str, An
     tparts = [part for sec in reversed(layout["sections"]) for part in sec["parts"] if part["kind"] == "table"]
     for part in tparts:
         qlines.append(f"q.table {part['after_kw']}")
+    # the Lean twins of the writer: same bytes for every table text / xref-stream payload
+    eol_name = {"\n": "lf", "\r\n": "crlf", "\r": "cr"}[case["eol"]]
+    ee_name = {" \n": "splf", "\r\n": "crlf", " \r": "spcr"}[case["entry_eol"]]
+    twins = []
+    for sec in layout["sections"]:
+        for part in sec["parts"]:
+            if part["kind"] == "table":
+                subs = []
+                ents = {e[0]: e for e in part["entries"]}
+                for (s0, c0) in CW.runs(list(ents)):
+                    subs.append("%d:%d:%d:%s" % (s0, len(str(s0)), len(str(c0)),
+                                                 ",".join("%d/%d/%s" % ents[n][1:4] for n in range(s0, s0 + c0))))
+                q = f"q.render {eol_name} {ee_name} {';'.join(subs) if subs else '-'}"
+                twins.append((q, C.hx(data[part["after_kw"] + len(case["eol"]):part["trailer_at"]])))
+            else:
+                q = "q.encrows %s %s" % (csv(part["w"]), ",".join("%d/%d/%d" % r[1:4] for r in part["rows"]) or "-")
+                twins.append((q, C.hx(part["data"])))
+    qlines += [q for q, _ in twins]
     out = ctx.driver.ask(lines + qlines)
     inp = {"kind": "history", "case": case, "queries": queries}
     if any(o != "ok" for o in out[:nsetup]):
         ctx.disagree("setup", inp, "ok", [o for o in out[:nsetup] if o != "ok"][:3])
         return
     r = dict(zip(qlines, out[nsetup:]))
+    for q, want in twins:
+        ctx.branch("twin:" + q.split(" ")[0])
+        if r[q] != want:
+            ctx.disagree("writer-twin " + q.split(" ")[0], inp, want[:200], r[q][:200])
     try:
         with Watchdog(30.0):
             _tie_compare(ctx, inp, data, layout, queries, exp, bufs, r, qs, bound, tparts, containers)
